@@ -206,6 +206,61 @@ def genrun_trace(plan):
     return trace
 
 
+
+def runner_trace(job):
+    """The real runner (ElabPass.elaborate_module_base / Elaborator.elaborate) over a DAG of empty modules and marker passes that
+    fail at planned (pass, module) points: after every call, which pass class has completed on which module, and which modules
+    remember an error."""
+    from hdl21.elab.passes.base import ElabPass
+    import hdl21.elab as elab
+
+    children, npasses, fails, calls = job["children"], job["npasses"], {tuple(x) for x in job["fail"]}, job["calls"]
+    mods = []
+    for k, ch in enumerate(children):
+        m = h.Module(name=f"N{k}")
+        for j, c in enumerate(ch):
+            m.add(h.Instance(of=mods[c]), name=f"i{j}")
+        mods.append(m)
+    idx = {id(m): k for k, m in enumerate(mods)}
+
+    def mkpass(k):
+        class Marker(ElabPass):
+            def elaborate_module(self, module):
+                if (k, idx[id(module)]) in fails:
+                    raise RuntimeError(f"planned failure of pass {k} on {module.name}")
+                return module
+        Marker.__name__ = f"Marker{k}"
+        return Marker
+
+    passes = [mkpass(k) for k in range(npasses)]
+    e = elab.Elaborator(passes=passes)
+    trace = []
+    for tops in calls:
+        try:
+            e.elaborate([mods[t] for t in tops])
+            ok = True
+        except Exception:  # noqa
+            ok = False
+        trace.append({"ok": ok, "done": [sorted(idx[id(m)] for m in p.CLASS_LEVEL_CACHE.done) for p in passes],
+                      "failed": sorted(k for k, m in enumerate(mods) if m._elab_error is not None),
+                      "pending": sum(len(p.CLASS_LEVEL_CACHE.pending) for p in passes)})
+    return trace
+
+
+def runner_jobs(rng, n):
+    jobs = []
+    for _ in range(n):
+        nm = rng.randint(2, 7)
+        children = [[]]
+        for k in range(1, nm):
+            children.append([rng.randrange(k) for _ in range(rng.choice([0, 1, 1, 2, 3]))])
+        npasses = rng.randint(1, 4)
+        fail = [[rng.randrange(npasses), rng.randrange(nm)] for _ in range(rng.choice([0, 1, 1, 2]))]
+        calls = [[rng.randrange(nm) for _ in range(rng.choice([1, 1, 2, 3]))] for _ in range(rng.randint(1, 5))]
+        jobs.append({"children": children, "npasses": npasses, "fail": fail, "calls": calls})
+    return jobs
+
+
 def run(ctx):
     rep, rng = ctx.rep, ctx.rng
     rep.extra["rule"] = (
@@ -336,6 +391,20 @@ def run(ctx):
                     break
             if sorted(x[0] for x in want["done"]) != got["done"] or got["pending"] != 0 or got["stack"] != 0 or want["pending"] != 0:
                 rep.fail("pred", case, {"why": f"after call {k} the generator cache is not what the calls so far leave behind", "model": want, "impl": got})
+                break
+    # the runner model itself (Runner.lean, on which the C07 / C08 / C02 theorems are stated) against the real runner
+    rjobs = runner_jobs(rng, 150 if ctx.quick else 3000)
+    rimpl = common.pmap(runner_trace, rjobs, chunk=8)
+    rmodel = ctx.drv.run([dict(j, prop="RUN", op="runner") for j in rjobs])
+    for j, im, mo in zip(rjobs, rimpl, rmodel):
+        case = {"stream": "runner", "job": j}
+        rep.count("runner", json.dumps(j), nontrivial=bool(j["fail"]))
+        for k, (got, want) in enumerate(zip(im, mo["trace"])):
+            if got["pending"] != 0:
+                rep.fail("pred", case, {"why": f"after call {k} a module is still marked pending", "impl": got})
+                break
+            if {"ok": got["ok"], "done": got["done"], "failed": got["failed"]} != want:
+                rep.fail("corr", case, {"why": f"after call {k} the runner's state differs from the model's", "impl": got, "model": want})
                 break
     rep.extra["scenarios"] = len(jobs)
     if jobs:
